@@ -83,6 +83,7 @@ func main() {
 	dump := flag.Bool("dump", false, "dump obligations (debug)")
 	evidence := flag.Bool("evidence", true, "write evidence file")
 	listFuncs := flag.Bool("list", false, "list functions")
+	uncov := flag.Bool("uncovered", false, "list call sites whose tagged callee precondition no property checks (contract lint), then exit")
 	replayFile := flag.String("replay", "", "replay file written for a VIOLATION line: re-check that obligation on the current tree (and re-run its counterexample)")
 	flag.Parse()
 	start := time.Now()
@@ -182,6 +183,21 @@ func main() {
 				all = append(all, ob)
 			}
 		}
+	}
+	if *uncov {
+		var us []string
+		for u := range eng.uncovered {
+			us = append(us, u)
+		}
+		sort.Strings(us)
+		for _, u := range us {
+			fmt.Println("UNCOVERED", u)
+		}
+		fmt.Printf("uncovered call-site preconditions: %d\n", len(us))
+		if len(us) > 0 {
+			os.Exit(1)
+		}
+		os.Exit(0)
 	}
 	if replayOb != "" && len(all) == 0 && len(bindFailures) == 0 {
 		fmt.Printf("replay: obligation %s is not generated from the current tree any more\n", replayOb)
